@@ -120,6 +120,34 @@ def loop_traces(ctx, insts, name, **dims):
     ctx.count("corrupted_traces_rejected", 1)
 
 
+def replay_freq(ctx, inst):
+    """Freq.tla behaviour -> real phasing.mutation_frequency(ts, [sample set])."""
+    from tsdate import phasing
+    ts = sc.ts_of(inst)
+    mids = sc.mutation_ids(inst, ts)
+    ctx.evaluations += 1
+    if ts.num_edges == 0:
+        return  # the edge-less corner is outside the sweep (see Freq!AllSeen)
+    try:
+        got = np.atleast_1d(phasing.mutation_frequency(ts, [sorted(inst["sset"])]))
+    except Exception as ex:  # noqa: BLE001
+        ctx.violation(f"C24/mutation_frequency/{type(ex).__name__}", inst, f"{type(ex).__name__}: {ex}", subcheck="freq")
+        return
+    code = [int(got[m]) for m in mids]
+    if code != list(inst["decl"]):
+        ctx.violation("C24/mutation_frequency/count-mismatch", inst,
+                      f"code {code}; declarative (samples of the set below the mutation's node) {inst['decl']}; "
+                      f"model {inst['freq']}", subcheck="freq")
+    if inst["muts"]:
+        ctx.nontriv("F" + sc.inst_key(inst) + str(sorted(inst["sset"])))
+
+
+def freq_consts(NS, NI, L, max_muts, tree_filter="any", emit=False):
+    import json
+    return {"NS": NS, "NI": NI, "L": L, "MaxMuts": max_muts, "TreeFilter": json.dumps(tree_filter),
+            "EmitDone": "TRUE" if emit else "FALSE"}
+
+
 def blocks_consts(NS, NI, L, max_muts, num_ind, tree_filter, emit=False):
     import json
     return {"NS": NS, "NI": NI, "L": L, "MaxMuts": max_muts, "TreeFilter": json.dumps(tree_filter),
@@ -205,6 +233,22 @@ def run(ctx):
     loop_traces(ctx, ctx.rng.sample(small, min(len(small), 150 if q else 3000)), "lt_a", NS=2, NI=2, L=2, max_muts=1)
     big = [i for i in insts if i["N"] == 6 and i["L"] == 3]
     loop_traces(ctx, big[: 60 if q else 1500], "lt_b", NS=3, NI=3, L=3, max_muts=3, custom=True)
+    # mutation frequencies (phasing._mutation_frequency)
+    cfg = ctx.write_cfg("freq_j1.cfg", constants=freq_consts(2, 2, 2, 1 if q else 2), invariants=["FreqExact", "AllSeen"])
+    ctx.tlc("Freq", cfg, workers=8, required_actions=("Gen", "Choose", "Step", "Finish"))
+    if not q:
+        cfg = ctx.write_cfg("freq_j1b.cfg", constants=freq_consts(3, 2, 2, 1), invariants=["FreqExact", "AllSeen"])
+        ctx.tlc("Freq", cfg, workers=8)
+    cfg = ctx.write_cfg("freq_j2.cfg", constants=freq_consts(2, 2, 2, 1, emit=True), invariants=["EmitInv"])
+    finsts = ctx.tlc("Freq", cfg, workers=4, coverage=False).rec("inst")
+    cfg = ctx.write_cfg("freq_j2s.cfg", constants=freq_consts(3, 3, 3, 3, emit=True), invariants=["EmitInv"])
+    finsts += ctx.tlc("Freq", cfg, workers=8, coverage=False, simulate={"num": 40 if q else 500}, depth=30).rec("inst")
+    capf = 1500 if q else 30000
+    if len(finsts) > capf:
+        finsts = ctx.rng.sample(finsts, capf)
+    for inst in finsts:
+        replay_freq(ctx, inst)
+        ctx.traces += 1
     # singleton blocks (phasing._block_singletons)
     musts = ["BlocksExact", "NoPhantomBlock", "MutBlockExact"]
     cfg = ctx.write_cfg("blocks_j1.cfg", constants=blocks_consts(2, 2, 2 if q else 3, 1 if q else 2, 1, "any"),
@@ -232,7 +276,9 @@ def run(ctx):
 
 def replay(ctx, body):
     harness.setup_repo_env(ctx.work)
-    if body.get("subcheck") == "blocks":
+    if body.get("subcheck") == "freq":
+        replay_freq(ctx, body["instance"])
+    elif body.get("subcheck") == "blocks":
         replay_blocks(ctx, body["instance"])
     else:
         replay_one(ctx, body["instance"])
